@@ -218,6 +218,30 @@ fn c10_forged_size_fields_no_panic_no_huge_allocation() {
             files.push(("image/gif", format!("GIF sub-block size={:#x}", a & 0xff), f));
         }
     }
+    // JPEG: one APPn / COM segment of EVERY content length 0..=72 (the handlers index fixed offsets of the JUMBF
+    // description box inside the first APP11 segment), with and without the JPEG-XT "JP" common header, well-formed
+    // length field
+    for marker in [0xebu8, 0xe1, 0xfe] {
+        for content_len in 0usize..=72 {
+            for jp in [false, true] {
+                let mut content: Vec<u8> = Vec::new();
+                if jp {
+                    content.extend_from_slice(b"JP");
+                    content.extend_from_slice(&[0, 1, 0, 0, 0, 1, 0, 0, 0, 40]);
+                    content.extend_from_slice(b"jumb");
+                    content.extend_from_slice(&[0, 0, 0, 32]);
+                    content.extend_from_slice(b"jumd");
+                    content.extend_from_slice(b"c2pa\x00\x11\x00\x10\x80\x00\x00\xaa\x00\x38\x9b\x71\x03c2pa\x00");
+                }
+                content.resize(content_len, 0x41);
+                let mut f = vec![0xff, 0xd8, 0xff, marker];
+                f.extend_from_slice(&((content_len + 2) as u16).to_be_bytes());
+                f.extend_from_slice(&content);
+                f.extend_from_slice(&[0xff, 0xd9]);
+                files.push(("image/jpeg", format!("JPEG marker={marker:#x} with {content_len} content bytes (JP header: {jp})"), f));
+            }
+        }
+    }
     files.push(("image/svg+xml", "SVG unterminated metadata".to_string(), b"<svg xmlns=\"http://www.w3.org/2000/svg\"><metadata><c2pa:manifest>AAAA".to_vec()));
     let hints = ["image/jpeg", "image/png", "image/gif", "image/tiff", "audio/wav", "image/webp", "video/avi", "video/mp4", "audio/mpeg", "image/svg+xml", "image/jxl", "application/c2pa", "audio/flac"];
     let limit = 8usize << 20;
@@ -264,5 +288,5 @@ fn c10_forged_size_fields_no_panic_no_huge_allocation() {
     }
     println!("VERIF-B-SAMPLE RIFF size=0xffffffff C2PA size=0xffffffef (36 bytes) read as audio/wav must fail without a 4 GiB allocation");
     println!("VERIF-B-SAMPLE violation classes this run: {:?}", counts);
-    println!("VERIF-B unit=io_utils test=c10_forged_size_fields_no_panic_no_huge_allocation evaluations={evals} nontrivial={nontrivial} exhaustive=true domain={} forged files < 200 bytes (RIFF/WAV/WEBP/AVI, PNG, BMFF, TIFF, JUMBF sidecar, JPEG XL, JPEG, MP3, GIF, SVG; size / count / offset fields from {{0,1,4,12,2^24,2^31-1,2^32-16,2^32-1}}) under their own hint, every 5th also with a broken signature under 13 hints; limit 8 MiB per allocation", files.len());
+    println!("VERIF-B unit=io_utils test=c10_forged_size_fields_no_panic_no_huge_allocation evaluations={evals} nontrivial={nontrivial} exhaustive=true domain={} forged files < 200 bytes (RIFF/WAV/WEBP/AVI, PNG, BMFF, TIFF, JUMBF sidecar, JPEG XL, JPEG (also one APP11 / APP1 / COM segment of every content length 0..=72), MP3, GIF, SVG; size / count / offset fields from {{0,1,4,12,2^24,2^31-1,2^32-16,2^32-1}}) under their own hint, every 5th also with a broken signature under 13 hints; limit 8 MiB per allocation", files.len());
 }
